@@ -212,3 +212,8 @@ package daemon
 //@ func gcPolicyRoutes
 //@   at call link.GetDeviceNumber: ghost c09deverr = result1
 //@   ensures c09deverr != nil && errIs(c09deverr, link.ErrNotFound) ==> result == nil
+
+//@ for C05
+//@ # ---- reload on open: every stored record is decoded into an object of its own (records never share pod info, resource
+//@ # ---- lists or sandbox ids through a reused decode target) ----
+//@ guard call json.Unmarshal in InitResourceDB$1: isptr(arg1, daemon.PodResources) && fresh(asptr(arg1, daemon.PodResources))
